@@ -184,8 +184,11 @@ def evaluate(asm, lines, idx=0):
                     want = ref_value(ln.ops[1], ln.ops[2], lo, off)
                     imm = int(d[-1]) if d[0] == 'i' else (0 if d[0] == 'r' else None)   # c.mv = add rd, x0, rs
                     if hi is None or hi[2] is None or imm is None or ((hi[2] << 12) + imm - want) % M32 != 0:
-                        out['problems'].append(('C08', compress, 'line {} {!r}: pair decodes to hi={} lo={} but the value is {}'.format(
-                            i, ln.text.strip(), hi[2] if hi else None, imm, want), ln.text))
+                        # which half is wrong?  if the low part is the %lo of the right value, the line at fault is the lui
+                        want_lo = ((want + 0x800) & 0xfff) - 0x800
+                        blame = hi[1].text if (hi is not None and imm == want_lo) else ln.text
+                        out['problems'].append(('C08', compress, 'line {} {!r}: pair decodes to hi={} lo={} but the value is {} ({} part wrong)'.format(
+                            i, ln.text.strip(), hi[2] if hi else None, imm, want, 'upper' if blame is not ln.text else 'lower'), blame))
                 else:
                     want = ref_value(ln.ops[2], ln.ops[3], lo, off)
                     imm = int(d[-1]) if d and d[0] in ('i',) else (0 if d and d[0] == 'r' else None)
@@ -198,12 +201,36 @@ def evaluate(asm, lines, idx=0):
     return out
 
 
+def gen_hi_boundary(rnd):
+    """%hi / %lo of a label whose address sits on a k*4096 + 0x800 boundary - where %hi changes - in the final layout
+    but not yet while the early decisions (compression, li width) are taken: shrinking items in front of it"""
+    body = []
+    for _ in range(rnd.randrange(1, 4)):
+        body.append(rnd.choice([L('    align 8', 'align', 'align', [8]), L('    align 4', 'align', 'align', [4]),
+                                L('    li x5, 3', 'li', 'li', [5], extra=3), L('    mv x8, x9', 'unary', 'mv', [8, 9])]))
+    # bases that keep %hi inside the c.lui operand set (-32..31, not 0) on BOTH sides of the boundary, and some that do not
+    base = rnd.choice([0, 0x1000, 0x1000, 0x2000, 0x5000, 0x1e000, 0x1f000, 0xfffe0000, 0xffffe000, 0x08000000, 0x20000000, 0xfffff000])
+    txt, kind = ('A0', 'bare') if base == 0 else ('%%position(A0, 0x%x)' % base, 'position')
+    rd = rnd.randrange(5, 32)
+    pair = [L('    lui x%d, %%hi(%s)' % (rd, txt), 'hiref', 'lui', [rd, kind, base], 'A0'),
+            L('    addi x%d, x%d, %%lo(%s)' % (rd, rd, txt), 'loref', 'addi', [rd, kind, base], 'A0')]
+    n = rnd.choice([rnd.randrange(505, 516), rnd.randrange(1016, 1031), 510, 511, 1021, 1022, 1023])
+    if rnd.random() < 0.6:
+        body += pair + nops(n) + [L('A0:', 'label', 'A0')] + nops(2)
+    else:
+        body += nops(n) + [L('A0:', 'label', 'A0')] + nops(rnd.randrange(0, 3)) + pair
+    return body
+
+
 def one_case(args):
     seedv, idx, tier = args
     os.environ['VERIF_SEED'] = str(seedv)
     asm = progs.get_asm()
     rnd = common.rng('label:%d' % idx)
-    lines = gen_label_program(rnd, arith=(idx % 7 == 3))
+    if idx % 10 == 9:
+        lines = gen_hi_boundary(rnd)
+    else:
+        lines = gen_label_program(rnd, arith=(idx % 7 == 3))
     return evaluate(asm, lines, idx)
 
 
